@@ -448,7 +448,7 @@ def op_wire(op):
     if k == 'remove':
         return 'remove=' + ','.join(map(str, op['which']))
     if k == 'ds':
-        f = op['f'] if op['f'] == 'inf' else -(-op['f'] // 1)     # `while i < factor`: a fractional factor acts like its ceiling
+        f = op['f'] if op['f'] == 'inf' else op['f'] // 1     # a finite fractional factor is rounded down before the walk (navis fix for C13)
         return f"ds={f if f == 'inf' else int(f)}=" + ','.join(map(str, op['pres']))
     if k == 'classify':
         return 'classify'
